@@ -98,6 +98,11 @@ func keyMutations(r *fw.Rand) []mut {
 		mut{"key-missing-type", false, func(m map[string]interface{}) { delete(m, "type") }},
 		mut{"key-type-empty", false, func(m map[string]interface{}) { m["type"] = "" }},
 		mut{"key-type-unknown", false, func(m map[string]interface{}) { m["type"] = "FooVerificationKey2099" }},
+		mut{"key-type-lower-case", false, func(m map[string]interface{}) { m["type"] = "jsonwebkey2020" }},
+		mut{"key-type-trailing-space", false, func(m map[string]interface{}) { m["type"] = "JsonWebKey2020 " }},
+		mut{"key-purpose-wrong-case", false, func(m map[string]interface{}) { m["purposes"] = []interface{}{"Authentication"} }},
+		mut{"key-purpose-trailing-space", false, func(m map[string]interface{}) { m["purposes"] = []interface{}{"authentication "} }},
+		mut{"key-purposes-duplicate-within-five", true, func(m map[string]interface{}) { m["purposes"] = []interface{}{"authentication", "assertionMethod", "authentication"} }},
 		mut{"key-type-unknown-no-purposes", false, func(m map[string]interface{}) { m["type"] = "FooVerificationKey2099"; delete(m, "purposes") }},
 		mut{"key-both-jwk-and-base58", false, func(m map[string]interface{}) { m["publicKeyBase58"] = gen.B58(r.Bytes(32)) }},
 		mut{"key-neither-jwk-nor-base58", false, func(m map[string]interface{}) { delete(m, "publicKeyJwk") }},
@@ -336,6 +341,8 @@ func runC13(r *fw.Runner) {
 			labelled{"replace/only-keys", gen.PReplace([]interface{}{baseKey(c.Rng, "k1")}, nil), true},
 			labelled{"replace/only-services", gen.PReplace(nil, []interface{}{baseService("s1")}), true},
 			labelled{"unknown-action", map[string]interface{}{"action": "rename-keys", "ids": []interface{}{"a"}}, false},
+			labelled{"action-wrong-case", map[string]interface{}{"action": "Remove-Public-Keys", "ids": []interface{}{"a"}}, false},
+			labelled{"action-trailing-space", map[string]interface{}{"action": "remove-public-keys ", "ids": []interface{}{"a"}}, false},
 			labelled{"missing-action", map[string]interface{}{"ids": []interface{}{"a"}}, false},
 		)
 		c13Run(c, cases)
